@@ -230,12 +230,66 @@ def res_cmd(rng):
         ["(%s)", "=%s;", " %s ", "(%s,100,20)", "=%s,30;", "(%s,,5)", "()%.0s"]) % rng.choice(["!2", "4", "1", "!1", "2.", "", "8^8"])
 
 
+STR_NAMES = ["A", "B", "Mel", "A01", "X_1", "Bass", "#M", "ZZ"]
+
+
+def part_text(rng, depth=1):
+    """the text of a PLAY part / a string variable: balanced braces only"""
+    n = rng.randrange(1, 6)
+    t = block(rng, depth, n, {"sub": True, "tuplet": True, "comments": False})
+    if rng.random() < 0.15:
+        t = track_cmd(rng) + " " + t
+    if rng.random() < 0.1:
+        t += " " + rng.choice(STR_NAMES)
+    return t.replace("//", "/ /")
+
+
+def play_cmd(rng):
+    k = rng.random()
+    n = rng.choice([1, 2, 2, 3, 4])
+    parts = []
+    for _ in range(n):
+        r = rng.random()
+        if r < 0.8:
+            parts.append("{" + part_text(rng) + "}")
+        elif r < 0.88:
+            parts.append(rng.choice(["1", "60", "", "-3"]))
+        else:
+            parts.append("{" + rng.choice(["", " ", "c", "r1", "l8"]) + "}")
+    sep = rng.choice([",", ", ", " ,\n", ","])
+    body = sep.join(parts)
+    return rng.choice(["PLAY", "Play"]) + rng.choice(["(%s)", "(%s)", "( %s )", "(%s", " (%s);"]) % body
+
+
+def str_def(rng):
+    name = rng.choice(STR_NAMES + ["", "TR", "Tempo", "c"])
+    k = rng.random()
+    if k < 0.8:
+        val = "{" + part_text(rng) + "}"
+    elif k < 0.9:
+        val = rng.choice(["5", "-1", "!4", ""])
+    else:
+        return rng.choice(["Str ", "STR "]) + name + " "
+    return rng.choice(["Str ", "STR ", "Str  ", "STR\t"]) + name + rng.choice([" = ", "=", " =", "= "]) + val + rng.choice(["", " ", "\n", ";"])
+
+
+def script_item(rng):
+    k = rng.random()
+    if k < 0.35:
+        return play_cmd(rng)
+    if k < 0.7:
+        return str_def(rng)
+    return rng.choice(STR_NAMES) + rng.choice([" ", " ", ";", "\n"])
+
+
 def ext_item(rng, feats):
     k = rng.random()
     if k < 0.30:
         return ctrl_cmd(rng)
-    if k < 0.55 and feats.get("reservations", True):
+    if k < 0.50 and feats.get("reservations", True):
         return res_cmd(rng)
+    if k < 0.62 and feats.get("play", True):
+        return script_item(rng)
     return item(rng, feats.get("depth", 2), feats)
 
 
